@@ -17,11 +17,25 @@ CHECK = os.path.join(VERIF, "bin", "tallycheck")
 
 
 def sh(cmd, cwd, timeout=600):
+    # own process group: test helper binaries a mutant leaves spinning (m3's m3testemit) are killed
+    # with it, otherwise they burn CPU for hours after the sweep
+    import signal
+    p = subprocess.Popen(cmd, cwd=cwd, env=ENV, stdout=subprocess.PIPE, stderr=subprocess.STDOUT, text=True, start_new_session=True)
     try:
-        r = subprocess.run(cmd, cwd=cwd, env=ENV, capture_output=True, text=True, timeout=timeout)
-        return r.returncode, r.stdout + r.stderr
+        out, _ = p.communicate(timeout=timeout)
+        rc = p.returncode
     except subprocess.TimeoutExpired:
-        return 124, "TIMEOUT"
+        out, rc = "TIMEOUT", 124
+    try:
+        os.killpg(p.pid, signal.SIGKILL)
+    except Exception:
+        pass
+    if rc == 124:
+        try:
+            p.communicate(timeout=5)
+        except Exception:
+            pass
+    return rc, out
 
 
 def worker(wid, q, out, lock, repo, scratch):
@@ -110,6 +124,7 @@ def main():
     ts = [threading.Thread(target=worker, args=(w, q, out, lock, a.repo, scratch)) for w in range(a.jobs)]
     [t.start() for t in ts]
     [t.join() for t in ts]
+    subprocess.run(["pkill", "-9", "-f", scratch + "/"])  # anything still running out of the scratch copies
     shutil.rmtree(scratch, ignore_errors=True)
 
 
